@@ -72,6 +72,22 @@ Definition all_refused : bool :=
 Theorem C15_window_not_longer_than_minimiser_is_refused : all_refused = true.
 Proof. vm_compute. reflexivity. Qed.
 
+(* counts and default output differ exactly by per-row normalisation: both rows are renderings of the SAME counts
+   and the same window total of the record - the integer itself, or its quotient by the total *)
+Theorem C15_counts_and_default_differ_by_normalisation :
+  forall k delim s, exists total counts, forall norm,
+  oligo_row_bytes_spec k norm delim s = join delim (map (entry_text norm total) counts) ++ [10].
+Proof. intros k delim s. exists (oligo_total_spec k s), (oligo_counts_spec k s). intros norm. reflexivity. Qed.
+
+(* the counter's ACGT option only changes how a k-mer is rendered: the same keys in the same order with the same
+   counts, the key printed as its number or as its text *)
+Theorem C15_acgt_only_changes_rendering :
+  forall k recs, exists keys count, forall acgt,
+  s_ctr k acgt recs = join comma (map (fun x => (if acgt then s_dec k x else dec x) ++ colon ++ dec_nat (count x)) keys).
+Proof.
+  intros k recs. eexists. exists (fun x => count_occ N.eq_dec (all_canon_spec k recs) x). intros acgt. unfold s_ctr. reflexivity.
+Qed.
+
 Example C15_example :
   m_cli (str "oligo") [(str "k", str "3"); (str "p", str "csv")] [[65;67;71;84]] [] = s_cli (str "oligo") [(str "k", str "3"); (str "p", str "csv")] [[65;67;71;84]] []
   /\ s_cli (str "ctr") [(str "k", str "32")] [[65]] [] = str "exit=2|NOOUT".
@@ -84,3 +100,5 @@ Print Assumptions C15_oligo_options.
 Print Assumptions C15_thread_option_never_changes_the_result.
 Print Assumptions C15_out_of_range_is_refused.
 Print Assumptions C15_window_not_longer_than_minimiser_is_refused.
+Print Assumptions C15_counts_and_default_differ_by_normalisation.
+Print Assumptions C15_acgt_only_changes_rendering.
